@@ -28,7 +28,16 @@ var debugOps = os.Getenv("SIM_DEBUG") != ""
 // "ab" is a string prefix-extension of "a": code that matches paths by string prefix instead of
 // by segment is exposed
 var poolNames = []string{"a", "b", "c", "ab"}
-var exoticNames = []string{"x.y", "...", "a b", "é", ".hid"}
+
+// poolName draws a name: the four pool names twice as often as "A", which differs from "a"
+// by case only (code that compares names case-insensitively is exposed)
+func poolName(r *Rand) string {
+	if i := r.Intn(9); i < 8 {
+		return poolNames[i/2]
+	}
+	return "A"
+}
+var exoticNames = []string{"x.y", "...", "a b", "é", ".hid", "A", "AB", "A"} // "A" differs from "a" by case only
 
 // spell renders a normalised path in one of the spellings the quantifier names; it never
 // climbs above the root.
@@ -76,7 +85,7 @@ func poolPath(r *Rand, maxDepth int) []string {
 			segs = append(segs, exoticNames[r.Intn(len(exoticNames))])
 			continue
 		}
-		segs = append(segs, poolNames[r.Intn(len(poolNames))])
+		segs = append(segs, poolName(r))
 	}
 	return segs
 }
@@ -112,7 +121,7 @@ func genFsOps(r *Rand, n int, extra []string, plainSpelling bool, gm *ModelTree)
 		if gm.has("w") && r.Chance(1, 3) {
 			// the many-entry directory, when the history has one: its entries (present, removed or new) and itself
 			op.Path = sp([]string{"w", fmt.Sprintf("n%03d", r.Intn(150))})
-			if op.Kind == "ReadDir" || (op.Kind == "Filespace") || r.Chance(1, 12) {
+			if op.Kind == "ReadDir" || (op.Kind == "Filespace") || r.Chance(1, 12) || ((op.Kind == "Copy" || op.Kind == "CopyDirectory") && r.Chance(1, 2)) {
 				op.Path = sp([]string{"w"})
 			}
 		}
@@ -143,7 +152,7 @@ func genFsOps(r *Rand, n int, extra []string, plainSpelling bool, gm *ModelTree)
 			}
 		case "Reader":
 			for k := r.Intn(3); k > 0; k-- {
-				op.Chunks = append(op.Chunks, r.Pick(1, 2, 3, 7, 64))
+				op.Chunks = append(op.Chunks, r.Pick(0, 1, 2, 3, 7, 64)) // a zero-length buffer is a legal Read
 			}
 		case "Copy", "CopyFile", "CopyDirectory":
 			op.Path2 = sp(poolPath(r, 3))
